@@ -134,6 +134,10 @@ type ScriptConn struct {
 
 	Log    []Op
 	Closed int // number of Close calls
+	// Starved counts the Reads issued when every scripted input byte had been
+	// delivered: on a live connection whose peer stays silent each of them
+	// would block.
+	Starved int
 	NoLog  bool
 }
 
@@ -272,6 +276,7 @@ func (c *ScriptConn) Read(p []byte) (int, error) {
 		}
 	}
 	if avail == 0 {
+		c.Starved++
 		err := c.EndErr
 		if err == nil {
 			err = io.EOF
